@@ -281,7 +281,9 @@ static void gen_params(const char *profile, uint64_t base, long idx)
 		P.u_ops = PICK(&rc, 5, 20, 40);
 	} else if(!strcmp(profile, "bar")) {
 		P.engine = 3;
-		P.u_threads = 2 + (int64_t)prng_below(&rc, 5);
+		P.u_threads = 1 + (int64_t)prng_below(&rc, 7); /* "for all thread counts": one thread is its own leader */
+		if(P.u_threads > 6)
+			P.u_threads = 2;
 		P.u_ops = 1 + (int64_t)prng_below(&rc, 40);
 	} else {
 		fprintf(stderr, "unknown profile %s\n", profile);
